@@ -113,7 +113,7 @@ def run(ctx):
         ctx.violation("the library crashed or aborted on the program %r: %s" % (good[idx], perr.strip()[-300:]),
                       {"stream": "C13-valid-program", "input": good[idx], "stderr": perr[-3000:]})
     rejected_here = [p for p, r in zip(good, recs) if (r.err or "").startswith("compile")]
-    good = [p for p, r in zip(good, recs) if not (r.err or "").startswith("compile") and r.err not in ("timeout", "crash")]
+    good = [p for p, r in zip(good, recs) if not (r.err or "").startswith("compile") and r.err not in ("timeout", "crash", "skipped")]
     bad = rejected_here + bad
     glines = ["Q - " + zwcorr.hx(p.encode("latin-1", "replace")) for p in good]
     ngood, leak_good = sweep(glines, "valid-program")
